@@ -66,6 +66,15 @@ func upgradeDumpBody(r *Run) {
 	notaryFlag := Weighted(t, "notaryFlag", []int{50, 20, 15, 15}) // 0 as dumped, 1 absent, 2 false, 3 true
 	ballots := Weighted(t, "ballots", []int{50, 15, 15, 20})       // 0 as dumped, 1 absent, 2 empty list, 3 stale (height far in the past is impossible on a short chain: see below)
 	extraAcc := rapid.IntRange(0, 3).Draw(t, "extraAccounts")
+	var extraFirst [3]byte
+	for i := range extraFirst {
+		if Chance(t, "extraFirstLetter?", 60) {
+			letters := "xoecndrmuastk5\x00\xff"
+			extraFirst[i] = letters[Pick(t, "extraFirstLetter", len(letters))]
+		} else {
+			extraFirst[i] = byte(Uniform(t, "extraFirstByte", 256))
+		}
+	}
 	longHistory := Chance(t, "longSnapshotHistory?", 35) // netmap: history extended beyond the default before the upgrade
 	twice := Chance(t, "twice?", 30)
 	d := LoadDump(filepath.Join(RepoDir(), ds.prefix))
@@ -134,7 +143,9 @@ func upgradeDumpBody(r *Run) {
 			if cnr != nil && own != nil {
 				for i := 0; i < extraAcc; i++ {
 					id := append([]byte{}, cnr.K...)
-					id[0] ^= byte(0x40 + i)
+					// ids are hashes: any first byte occurs, those that the
+					// prefixed layouts use for something else included
+					id[0] = extraFirst[i]
 					id[31] ^= byte(1 + i)
 					out = append(out, KV{K: id, V: cnr.V})
 					ok := append(append([]byte{}, own.K[:25]...), id...)
